@@ -57,6 +57,20 @@ structure baseFlow where
   StartL2Block : Nat := 0
   deriving Repr, DecidableEq
 
+/-- the fields of the node's certificate record that `getNextHeightAndPreviousLER` reads (exit roots as opaque values) -/
+structure FullHdr where
+  Height : Nat := 0
+  Status : Nat := 0
+  NewLocalExitRoot : Nat := 0
+  PreviousLocalExitRoot : Option Nat := none
+  deriving Repr, DecidableEq
+
+/-- the environment of `getNextHeightAndPreviousLER`: the start exit root (`getStartLER`) and the record stored at a height
+    (`storage.GetCertificateHeaderByHeight`); `none` = the call returned an error -/
+structure baseFlowEnv where
+  getStartLER : Option Nat
+  headerByHeight : Nat → Option (Option FullHdr)
+
 /-- what `process` returns: `(&initialStatusResult{action, cert}, nil)` or `(nil, err)` -/
 inductive Ret where
   | result (action : Nat) (cert : Option CertHdr)
